@@ -95,6 +95,10 @@ type entKey struct {
 }
 
 func runC10(c *core.Ctx, res *core.Result) {
+	if c.Idx%10 == 6 {
+		c10AlignedSkip(c, res)
+		return
+	}
 	r := c.Rand
 	dir := c.Dir + "/db"
 	cfg := kv.Cfg{MemTableSize: 32 << 20, MaxMemTables: 4, SyncMode: 2, CompactSecs: 3600}
@@ -345,6 +349,25 @@ func runC10(c *core.Ctx, res *core.Result) {
 		faults = append(faults, fault{file: f, pos: p, val: nv, class: cl})
 	}
 
+	// corruptions inside the MIDDLE/LAST fragments of multi-record entries: the reader has already collected the
+	// entry's first fragments when it meets the damage
+	for f := range files {
+		raw := data[f]
+		type span struct{ a, b int64 }
+		var later []span
+		for pos := int64(0); pos+7 <= int64(len(raw)); {
+			l := int64(binary.LittleEndian.Uint16(raw[pos+4 : pos+6]))
+			if t := raw[pos+6]; (t == 3 || t == 4) && l > 0 && pos+7+l <= int64(len(raw)) {
+				later = append(later, span{pos + 7, pos + 7 + l})
+			}
+			pos += 7 + l
+		}
+		for n := 0; n < 10 && len(later) > 0; n++ {
+			sp := later[r.Intn(len(later))]
+			p := sp.a + int64(r.Intn(int(sp.b-sp.a)))
+			faults = append(faults, fault{file: f, pos: p, val: raw[p] ^ byte(1<<uint(r.Intn(8))), class: "later_fragment"})
+		}
+	}
 	cdir := c.Dir + "/dmg"
 	effective := 0
 	for _, ft := range faults {
@@ -565,4 +588,139 @@ func runC10(c *core.Ctx, res *core.Result) {
 	if c.Idx < 2 {
 		res.Sample = map[string]interface{}{"case": c.Idx, "units": len(units), "entries": nent, "log_files": len(files), "file_sizes": sizes, "faults": len(faults), "faults_inside_a_unit": effective}
 	}
+}
+
+// c10AlignedSkip: a log in which the reader's skip-ahead after a damaged record (32 KB) lands exactly on the
+// first fragment of the next multi-record entry: large entry E1, 32 filler records of exactly 1 KB, large
+// entry E2; one byte inside a later fragment of E1 is changed. Replay must deliver the intact prefix and
+// nothing that was not appended - in particular no entry assembled from E1's first fragments and E2's.
+func c10AlignedSkip(c *core.Ctx, res *core.Result) {
+	r := c.Rand
+	dir := c.Dir + "/db"
+	cfg := kv.Cfg{MemTableSize: 32 << 20, MaxMemTables: 4, SyncMode: 2, CompactSecs: 3600}
+	eng, err := kv.Open(dir, cfg)
+	if err != nil {
+		res.Violate("open_error", err.Error(), nil)
+		return
+	}
+	walDir := filepath.Join(dir, "wal")
+	size := func() int64 {
+		f, _ := filepath.Glob(filepath.Join(walDir, "*.wal"))
+		sort.Strings(f)
+		st, _ := os.Stat(f[len(f)-1])
+		return st.Size()
+	}
+	val := func(tag string, n int) []byte {
+		v := []byte(fmt.Sprintf("c%d/%s|", c.Idx, tag))
+		for len(v) < n {
+			v = append(v, byte('a'+len(v)%26))
+		}
+		return v[:n]
+	}
+	for i := 0; i < r.Range(1, 6); i++ {
+		eng.Put([]byte(fmt.Sprintf("pre%02d", i)), val(fmt.Sprintf("pre%d", i), r.Range(10, 300)))
+	}
+	e1Start := size()
+	eng.Put([]byte("entry-one"), val("E1", r.Range(34000, 120000)))
+	e1End := size()
+	for i := 0; i < 32; i++ {
+		k := []byte(fmt.Sprintf("f%07d", i))                // 8 bytes
+		eng.Put(k, val(fmt.Sprintf("f%d", i), 1000-len(k))) // record = 7 + 17 + 8 + 992 = 1024 bytes
+	}
+	e2Start := size()
+	eng.Put([]byte("entry-two"), val("E2", r.Range(34000, 120000)))
+	for i := 0; i < r.Range(0, 4); i++ {
+		eng.Put([]byte(fmt.Sprintf("post%02d", i)), val(fmt.Sprintf("post%d", i), r.Range(10, 300)))
+	}
+	eng.Close()
+	if e2Start-e1End != 32768 {
+		res.Inconclusive = fmt.Sprintf("filler region is %d bytes, not 32768", e2Start-e1End)
+		return
+	}
+	var appended []entKey
+	wal.ReplayWALDir(walDir, func(e *wal.Entry) error {
+		appended = append(appended, entKey{e.SequenceNumber, e.Type, string(e.Key), string(e.Value)})
+		return nil
+	})
+	files, _ := filepath.Glob(filepath.Join(walDir, "*.wal"))
+	sort.Strings(files)
+	raw, _ := os.ReadFile(files[len(files)-1])
+	// the later fragments of E1
+	var later [][2]int64
+	for pos := e1Start; pos < e1End; {
+		l := int64(binary.LittleEndian.Uint16(raw[pos+4 : pos+6]))
+		if t := raw[pos+6]; t == 3 || t == 4 {
+			later = append(later, [2]int64{pos + 7, pos + 7 + l})
+		}
+		pos += 7 + l
+	}
+	if len(later) == 0 {
+		res.Inconclusive = "E1 is not fragmented"
+		return
+	}
+	cdir := c.Dir + "/dmg"
+	for n := 0; n < 6 && len(res.Violations) == 0; n++ {
+		sp := later[r.Intn(len(later))]
+		p := sp[0] + int64(r.Intn(int(sp[1]-sp[0])))
+		if err := cloneDB(dir, cdir); err != nil {
+			res.Inconclusive = "copy failed: " + err.Error()
+			return
+		}
+		cw, _ := filepath.Glob(filepath.Join(cdir, "wal", "*.wal"))
+		sort.Strings(cw)
+		fh, _ := os.OpenFile(cw[len(cw)-1], os.O_RDWR, 0644)
+		fh.WriteAt([]byte{raw[p] ^ byte(1<<uint(r.Intn(8)))}, p)
+		fh.Close()
+		res.Count("faults_corrupt", 1)
+		res.Count("faults_at_later_fragment_with_aligned_skip", 1)
+		what := fmt.Sprintf("log: %d small entries, E1 (bytes %d..%d, %d later fragments), 32 records of 1024 bytes, E2 at byte %d; byte %d inside a later fragment of E1 changed", len(appended)-34-0, e1Start, e1End, len(later), e2Start, p)
+		feat := map[string]string{"fault": "corrupt", "pos_class": "later_fragment_aligned_skip"}
+		rest := map[entKey]int{}
+		for _, e := range appended {
+			rest[e]++
+		}
+		var got []entKey
+		wal.ReplayWALDir(filepath.Join(cdir, "wal"), func(e *wal.Entry) error {
+			got = append(got, entKey{e.SequenceNumber, e.Type, string(e.Key), string(e.Value)})
+			return nil
+		})
+		for i, e := range got {
+			if rest[e] == 0 {
+				res.Violate("fabricated_log_entry", fmt.Sprintf("%s: replay delivered (as entry %d of %d) {seq=%d type=%d key=%s value=%s} which was never appended", what, i, len(got), e.seq, e.typ, kv.Q([]byte(e.k)), kv.Q([]byte(e.v))), feat)
+				break
+			}
+			rest[e]--
+		}
+		for i := 0; i < len(appended) && appended[i].k != "entry-one" && len(res.Violations) == 0; i++ {
+			if i >= len(got) || got[i] != appended[i] {
+				res.Violate("intact_prefix_not_recovered", fmt.Sprintf("%s: entry %d in front of the damage was not delivered", what, i), feat)
+			}
+		}
+		if len(res.Violations) > 0 {
+			break
+		}
+		e2, err := engine.NewEngineFacade(cdir)
+		if err != nil {
+			res.Violate("recovery_open_failed", fmt.Sprintf("%s: opening the database failed: %v", what, err), feat)
+			break
+		}
+		if v, gerr := e2.Get([]byte("entry-one")); gerr == nil && string(v) != appended[len(appended)-1].v {
+			// the only value ever written for this key is E1's
+			orig := ""
+			for _, a := range appended {
+				if a.k == "entry-one" {
+					orig = a.v
+				}
+			}
+			if string(v) != orig {
+				res.Violate("damaged_log_state_wrong", fmt.Sprintf("%s: key entry-one reads a %d-byte value that was never written", what, len(v)), feat)
+			}
+		}
+		e2.Close()
+		res.Count("second_recoveries", 1)
+	}
+	os.RemoveAll(cdir)
+	res.Count("units", int64(len(appended)))
+	res.Sig = core.Sig("aligned", len(appended), e1End-e1Start, len(later))
+	res.Nontrivial = true
 }
